@@ -272,8 +272,11 @@ def _return_it_tweak(rng, row, w, case):
         st_['cpsr'] = (st_['cpsr'] & 0x0FFFFFFF) | (passing_flags(rng, fc) << 28)
     # the PSR being restored describes a program interrupted inside an IT block of its own
     ret_it = rng.choice([x for x in gen.IT_STATES if x])
+    same = rng.random() < 0.2          # a return to exactly the state the handler runs in (same mode, flags, masks and ITSTATE): nothing changes - and nothing advances
     for k in gen.SPSR_KEYS:
-        if rng.random() < 0.8:
+        if same:
+            st_[k] = st_['cpsr']
+        elif rng.random() < 0.8:
             st_[k] = (st_[k] & ~0x0600FC00 | ((ret_it & 3) << 25) | ((ret_it >> 2) << 10)) | (1 << 5)
 
 
